@@ -20,5 +20,8 @@ def run(chk):
     wrapper_contracts.wrapper_obligations(chk, "C11", want=("C11",))
     batcher.check_collect(chk, "C11")      # updates reach the API in hand-over order (a child's START after its parent's START)
     batcher.check_consumer(chk, "C11")
+    from . import state_contracts
+    state_contracts.merge_all_pages(chk, "C11")            # "no update for an operation the backend already holds as terminal" needs the WHOLE history in the state
+    state_contracts.lookup_faithful(chk, "C11") if hasattr(state_contracts, "lookup_faithful") else None
     from . import c19
     c19.counter_sequence(chk, "C11.ids.counter_atomic")    # distinct positions get distinct ids: no second START for an id that belongs to another operation
